@@ -155,6 +155,13 @@ def program_suite(ctx, conv, prog, pending):
     o0 = S.run_scenario(R, sc0)
     pending.append((sc0, o0))
     ctx.count('style', style)
+    # --- a wrongly-shaped parameter raises, during init as well: one declaration site asked for two shapes ---
+    two = [sh for sh in S.param_shapes_by_site(prog).values() if len(sh) > 1]
+    if two and o0['peak'] < S.LIMIT:
+      ctx.count('oracle', 'misshaped-raises-at-init')
+      if o0['result'][0] == 'ok':
+        ctx.violation('init-accepts-two-shapes', f'during init one parameter was requested with shapes {sorted(two[0])} (a submodule re-used on arguments of different widths) and init returned instead of raising ScopeParamShapeError', S.public(sc0))
+        continue
     if o0['peak'] >= S.LIMIT or o0['result'][0] != 'ok' or o0['result'][3]:
       continue
     V, y0 = o0['result'][2], o0['result'][1]
@@ -174,6 +181,11 @@ def program_suite(ctx, conv, prog, pending):
     oT = S.run_scenario(R, scT)
     pending.append((scT, oT))
     inexact = max(oA['peak'], oT['peak']) >= S.LIMIT
+    # init's variables are what apply consumes: on the same program and argument they can never be "wrongly shaped"
+    for scX, oX in ((scA, oA), (scT, oT)):
+      if oX['result'] == ('err', 'ScopeParamShapeError'):
+        ctx.violation('apply-rejects-init-variables', "apply on the variables init just returned (same program, same argument) raises ScopeParamShapeError", S.public(scX))
+        inexact = True
     if not inexact:
       if agree_class(prog):
         ctx.count('oracle', 'init_apply_agree(decl-only)')
@@ -255,6 +267,8 @@ def restrict_vars(V, path):
 
 def standalone(ctx, conv, R, prog, style, V, x, pending):
   """a submodule applied on its own subtree computes what it computes inside its parent"""
+  if any(st['op'] == 'put' and st.get('rel') for st in S.walk(prog)):
+    return  # an ancestor writes into a submodule's subtree: its state at call time is not the subtree of V
   mj = ctx.rng.choice([False, False, True])
   sc = base_sc(prog, style, kind='apply', mutable=mj, x=x, vars=V, rngs=False)
   S.Guard.reset()
@@ -269,12 +283,14 @@ def standalone(ctx, conv, R, prog, style, V, x, pending):
     by_path.setdefault(c[0], []).append(c)
   cands = [c for c in calls if len(c[0]) >= 1 and len(by_path[c[0]]) == 1]
   ctx.rng.shuffle(cands)
-  for path, a, out, body in cands[:2]:
+  for path, a, out, body, aw in cands[:2]:
     # descendants must be called once at most too when state may change
     a_int, out_int = S.out_int(a), S.out_int(out)
     Vs = restrict_vars(V, list(path))
     sub_style = style if (style == 'compact' or S.setup_eligible(body)) else 'compact'
     scS = base_sc(body, sub_style, kind='apply', mutable=mj, x=a_int, vars=Vs, rngs=False, standalone_of=list(path))
+    if aw is not None:
+      scS['xw'] = aw
     Rs = S.Rendered(body, sub_style)
     oS = S.run_scenario(Rs, scS)
     pending.append((scS, oS))
@@ -498,6 +514,12 @@ def run(ctx):
   for _ in range(30 if not thorough else 300):
     S.check_shared(ctx, S.shared_case(ctx.rng), 'C02')
   lazy_stream(ctx, conv, pending, 40 if not thorough else 400)
+  flush(ctx, drv, conv, pending)
+  # parameter shapes that follow the argument's shape; submodules re-used on different widths
+  for _ in range(60 if not thorough else 600):
+    prog = S.gen_width_prog(ctx.rng)
+    ctx.count('streams', 'width')
+    program_suite(ctx, conv, prog, pending)
   flush(ctx, drv, conv, pending)
   n = 620 if not thorough else 8000
   done = 0
